@@ -237,6 +237,19 @@ def _eval_block(block, acc):
                                 acc.outcomes[("big", va, st)] += 1
                                 for key, detail in out:
                                     acc.violation(key.replace("|nonempty", "|oversize"), {"kind": "parse", "data_gen": {"n": n, "len": lenfield.hex(), "cid": cid.hex(), "ck": data[-2:].hex()}, "mode": mode, "validate": va, "pbf": 1}, detail)
+    elif kind == "Pref":
+        # messages that REFER to another message by class and ID (ACK-ACK, ACK-NAK, CFG-MSG): every (class, ID) value
+        for hi in range(block[1], 256, block[2]):
+            for lo in range(256):
+                for cid, tail, modes in (((0x05, 0x01), b"", (0,)), ((0x05, 0x00), b"", (0,)), ((0x06, 0x01), b"", (1, 2, 3)), ((0x06, 0x01), b"\x01", (1, 3)), ((0x06, 0x01), bytes(6), (1, 3))):
+                    data = ref.frame(cid[0], cid[1], bytes([hi, lo]) + tail)
+                    for mode in modes:
+                        st, out = judge_parse(data, mode, 1, 1)
+                        acc.evaluations += 1
+                        acc.transitions += 1
+                        acc.outcomes[("ref", cid[1], st)] += 1
+                        for key, detail in out:
+                            acc.violation(key + "|referenced_class=%02x" % hi, {"kind": "parse", "data": data.hex(), "mode": mode, "validate": 1, "pbf": 1, "suffix": "|referenced_class=%02x" % hi}, detail)
     elif kind == "Pcfg":
         # configuration key/value messages: every value of the key ID's top byte (size code, reserved bit) x group
         # in / not in the database x 0..9 value bytes x a second item; parse and stream, all modes
@@ -392,6 +405,7 @@ def run_tier(tier, t0):
     blocks.append(("C",))
     blocks.append(("Pshort", 2))
     blocks.append(("Pcfg", "top"))
+    blocks += [("Pref", i, 16) for i in range(16)]
     blocks.append(("Pbig",))
     blocks += [("P", list(p), LP) for p in itertools.product(range(8), repeat=2)]
     blocks += [("S", list(b), "full") for b in streams.byte_blocks(LS_full)]
@@ -415,7 +429,7 @@ def run_tier(tier, t0):
         ),
         assumptions=[
             f"a single call using more than {WATCHDOG_S}s of CPU time is a hang (slowest legitimate case measured: ~4 s)",
-            "CFG-VALGET / CFG-VALSET / CFG-VALDEL frames with every value 0..255 of the key ID's top byte x 4 group/item patterns x 0..9 value bytes, all modes, both views",
+            "ACK-ACK, ACK-NAK and CFG-MSG (2-, 3- and 8-byte payloads) referring to every one of the 65,536 (class, ID) pairs, parsed and inspected", "CFG-VALGET / CFG-VALSET / CFG-VALDEL frames with every value 0..255 of the key ID's top byte x 4 group/item patterns x 0..9 value bytes, all modes, both views",
             "every boundary-length frame and every content-refused frame (NMEATypeError, UBXTypeError, UBXMessageError, RTCMTypeError) between every pair of 7 neighbour tokens x 6 configurations",
             "token sequences of <= 2 through a pipe-like stream object (seek/tell exist and raise), a read/readline-only object and a BufferedReader x 10 configurations incl. every single-protocol-excluded mask",
             "runs of 1,100 and 3,000 consecutive discarded messages (rejected, or filtered out by protfilter) followed by one good frame",
